@@ -213,7 +213,7 @@ def run(model: Model, rep: Report) -> None:
 
 
 def _shapes(model: Model, rep: Report) -> None:
-    r5 = rep.rule("C16-R5", "BIND", "paint_path: points, classification sets and the bindings of every shape constructor down to the stored fields", 12)
+    r5 = rep.rule("C16-R5", "BIND", "paint_path: points, classification sets and the bindings of every shape constructor down to the stored fields", 14)
     pp = model.func("pdfminer.converter.PDFLayoutAnalyzer.paint_path")
     L = "pdfminer.layout."
     want_common = {
@@ -282,6 +282,17 @@ def _shapes(model: Model, rep: Report) -> None:
     src = unparse(pp.node)
     pts_ok = "apply_matrix_pt(self.ctm, pt) for pt in raw_pts" in src and "p[-2:] if p[0] != 'h' else path[0][-2:]" in src
     r5.check(pts_ok, site(pp), pp.qualname, "points are apply_matrix_pt(ctm, last two operands of each segment); h contributes the start point", why="point computation changed")
+    # device space only: the untransformed points feed nothing but the transformation, and the coordinates the rectangle test
+    # compares are destructured from the transformed points
+    xf = [n for n in walk_no_nested(pp.node) if isinstance(n, ast.Assign) and isinstance(n.value, ast.ListComp) and isinstance(n.value.elt, ast.Call) and unparse(n.value.elt).startswith("apply_matrix_pt(self.ctm") and len(n.value.generators) == 1 and isinstance(n.value.generators[0].iter, ast.Name)]
+    if len(xf) != 1 or not isinstance(xf[0].targets[0], ast.Name):
+        raise AnchorMissing("paint_path: transformed point list not found")
+    dev, raw = xf[0].targets[0].id, xf[0].value.generators[0].iter.id
+    raw_uses = [n for n in ast.walk(pp.node) if isinstance(n, ast.Name) and n.id == raw and isinstance(n.ctx, ast.Load)]
+    r5.check(len(raw_uses) == 1, site(pp, raw_uses[-1] if raw_uses else pp.node), pp.qualname, f"user-space points `{raw}` are read only to compute the device-space points `{dev}`", why=f"`{raw}` is read at lines {sorted(n.lineno for n in raw_uses)}: a shape decision or geometry taken from untransformed operands ignores the CTM (a rotated rectangle would be classified by its user-space sides)")
+    coord_defs = [n for n in walk_no_nested(pp.node) if isinstance(n, ast.Assign) and isinstance(n.targets[0], ast.Tuple) and {"x0", "y0", "x3", "y3"} <= {x.id for x in ast.walk(n.targets[0]) if isinstance(x, ast.Name)}]
+    okc = len(coord_defs) == 1 and {x.id for x in ast.walk(coord_defs[0].value) if isinstance(x, ast.Name)} == {dev}
+    r5.check(okc, site(pp, coord_defs[0] if coord_defs else pp.node), pp.qualname, f"the corner coordinates tested for axis-alignment are taken from `{dev}`", why=f"corners come from `{unparse(coord_defs[0].value) if coord_defs else None}`")
     # several m: one shape per subpath, by recursion on strictly shorter subpaths
     rec = [n for n in walk_no_nested(pp.node) if isinstance(n, ast.Call) and (dotted(n.func) or "") == "self.paint_path"]
     multi = any(isinstance(n, ast.If) and "shape.count('m') > 1" in unparse(n.test) for n in walk_no_nested(pp.node))
